@@ -3,5 +3,7 @@ CONSTANTS
     Alphabet = {0, 1, 2, 4}
     MaxLen = 6
     ValueLens = {0, 1, 255, 256}
-INVARIANTS InRange PrefixOfWalk StopsForGood Tiling Bounded Exhausts ItemCount Export
+    ProgLens <- ProgLensQuick
+    NthArgs <- NthArgsQuick
+INVARIANTS InRange WalkInvs StopsForGood OnTheWalk Bounded ItemCount Export
 CHECK_DEADLOCK FALSE
